@@ -91,6 +91,10 @@ type c17Op struct {
 	// ParameterChangeProposal is - the params module's proposal handler writes every field of the set straight into the
 	// module's subspace (per-field validators), bypassing the module's message server and keeper.SetParams
 	Legacy bool `json:"legacy,omitempty"`
+	// Restate (parameter updates with a FOREIGN authority): the message carries exactly the parameters currently stored
+	// (read at execution time) - a no-op if it were accepted, so a handler that takes a short cut for "nothing to do" before
+	// it checks the authority accepts it
+	Restate bool `json:"restate,omitempty"`
 }
 type c17Case struct {
 	Ops []c17Op `json:"ops"`
@@ -881,6 +885,9 @@ func runC17(e *Env) {
 					if o.Authority == w.gov && o.NilField == "" && e.Chance(0.33) {
 						o.Legacy = true
 					}
+					if o.Authority != w.gov && o.NilField == "" && e.Chance(0.3) {
+						o.Restate = true
+					}
 				}
 			}
 		}
@@ -900,6 +907,21 @@ func runC17(e *Env) {
 			if !deliverable {
 				e.Stats.Count("undeliverable:" + o.Kind)
 				continue
+			}
+			if o.Restate {
+				switch v := msg.(type) {
+				case *coinswaptypes.MsgUpdateParams:
+					v.Params = a.CoinswapKeeper.GetParams(ctx)
+				case *inflationtypes.MsgUpdateParams:
+					v.Params = a.InflationKeeper.GetParams(ctx)
+				case *csrtypes.MsgUpdateParams:
+					v.Params = a.CSRKeeper.GetParams(ctx)
+				case *onboardingtypes.MsgUpdateParams:
+					v.Params = a.OnboardingKeeper.GetParams(ctx)
+				case *erc20types.MsgUpdateParams:
+					v.Params = a.Erc20Keeper.GetParams(ctx)
+				}
+				e.Stats.Count("restates-stored-params:" + o.Kind)
 			}
 			executed = append(executed, o)
 			step := len(executed) - 1
